@@ -276,3 +276,18 @@ PROPS["C14"] = dict(
     assumptions=COMMON_ASSUMPTIONS + ["stored cpuset initiators are pairwise disjoint (the domain the property defines); overlapping cpusets are only used as queries",
                                       "best-of results are accepted when they are an optimal stored entry (ties allowed)"],
 )
+
+
+PROPS["C09"] = dict(
+    level_text="Exhaustive small-scope differential on the real helpers: every topology of U_small x 2 configurations and every state one "
+               "restrict reaches; every helper with every argument of the small domains (all objects and ordered pairs, every subset of the "
+               "PU/NUMA set plus out-of-root sets, every type/depth, hwloc_distrib for every root choice x n in 1..2*#PU+1 x every until x "
+               "both flag words) compared with a brute-force search over the walked object list using independent 64-bit mask arithmetic.",
+    technique="bounded-exhaustive argument enumeration on the real code, brute-force reference search (explicit-state over restrict successors)",
+    design_ref="DESIGN.md 5 (C09), 6.1",
+    stages=[simple("helpers", "c09_helpers", parts=50, deadline={"quick": 120, "thorough": 2400})],
+    explanation="States: U_small under the default and the keep-all+INCLUDE_DISALLOWED configurations, plus the distinct states after one restrict of the (lean) restrict alphabet.",
+    bounds={"quick": "restrict successors of the lean alphabet", "thorough": "restrict successors with subsets up to 4 elements"},
+    assumptions=COMMON_ASSUMPTIONS + ["hwloc_distrib: pairwise disjointness is demanded for until=INT_MAX and n <= #PUs only (with a cut-off the documented result repeats cpusets)",
+                                      "hwloc_get_closest_objs and hwloc_get_common_ancestor_obj are driven with objects that have CPU sets"],
+)
